@@ -993,6 +993,58 @@ def oracle_for(prop):
                                  "signature": "C13:two-networks-one-edited::in-place-edit-lost"})
             except Exception as e:
                 viol.append({"property": "C13", "network": "two-networks-one-edited", "what": f"raises: {type(e).__name__}: {e}", "signature": "C13:two-networks-one-edited::raises"})
+            # history: two reactions carry the same file index and a rate modifier names it; one of them is removed - the one that is
+            # left is still a targeted reaction and keeps the override (the modifier table is not the removal's to edit)
+            try:
+                fresh_species_state()
+                reacs = [(["C", "H"], ["CH"], dict(alpha=1.0, idx=5)), (["CH", "H"], ["C", "H2"], dict(alpha=2.0, idx=7)), (["H2", "C"], ["CH", "H"], dict(alpha=3.0, idx=5))]
+                for how in ("position", "instance"):
+                    nr_ = Network([mk_reaction(*r[:2], **r[2]) for r in reacs], rate_modifier={5: "1.25e-11 * kmod5", 7: "2.5e-12"})
+                    nr_.remove_reaction(0 if how == "position" else nr_.reaction_list[0])
+                    cases += 1
+                    txt = strip_comments(Rendered(nr_, BACKENDS[0]).rates_text)
+                    if "kmod5" not in txt or "2.5e-12" not in txt:
+                        viol.append({"property": "C13", "network": "removal-of-one-of-two-targeted", "what": f"override-lost-after-removal: reactions 0 and 2 share file index 5 (modifier `1.25e-11 * kmod5`); after removing reaction 0 by {how} "
+                                     f"the remaining one is rendered without the override (modifier table now {dict(nr_.rate_modifier)})", "signature": "C13:removal-of-one-of-two-targeted::override-lost-after-removal"})
+                        break
+            except Exception as e:
+                viol.append({"property": "C13", "network": "removal-of-one-of-two-targeted", "what": f"raises: {type(e).__name__}: {e}", "signature": "C13:removal-of-one-of-two-targeted::raises"})
+        if prop in ("C13", "C03", "C01", "C02"):
+            # history: ONE loader object renders a network, a modifier is added to the network, the same loader renders again: the
+            # second set of sources is the one a fresh loader writes for the edited network (equations, Jacobian, CSR arrays, NNZ)
+            try:
+                import tempfile as _tf, shutil as _sh
+                from naunet.templateloader import TemplateLoader
+                from naunet.network import Network as _NetL
+                Network_ = _NetL
+                fresh_species_state()
+                reacs = [(["C", "H"], ["CH"], dict(alpha=1.0, idx=1)), (["CH", "H"], ["C", "H2"], dict(alpha=2.0, idx=2)), (["H", "H"], ["H2"], dict(alpha=3.0, idx=3))]
+                nl = Network_([mk_reaction(*r[:2], **r[2]) for r in reacs])
+
+                def _rd(tl_, net_):
+                    d_ = _tf.mkdtemp(prefix="vf_same_loader_")
+                    try:
+                        with contextlib.redirect_stdout(io.StringIO()):
+                            tl_.render("vfproj", net_, path=Path(d_), jac_pattern=True)
+                        return {os.path.relpath(os.path.join(r_, f_), d_): open(os.path.join(r_, f_), errors="replace").read() for r_, _, fs_ in os.walk(d_) for f_ in fs_}
+                    finally:
+                        _sh.rmtree(d_, ignore_errors=True)
+                for bk in (("cvode", "sparse", "cpu"), ("cvode", "dense", "cpu")):
+                    nl = Network_([mk_reaction(*r[:2], **r[2]) for r in reacs])
+                    tl = TemplateLoader(*bk)
+                    _rd(tl, nl)
+                    nl.rate_modifier[2] = "7.5e-12"
+                    nl.ode_modifier["C"] = {"factors": ["-fdiss"], "reactants": [["H2"]]}       # d(C)/d(H2) becomes a new Jacobian entry
+                    second = _rd(tl, nl)
+                    fresh = _rd(TemplateLoader(*bk), nl)
+                    cases += 1
+                    diff = sorted(k for k in fresh if k.startswith(("src/", "include/")) and second.get(k) != fresh[k])
+                    if diff:
+                        viol.append({"property": prop, "network": "same-loader-second-render", "what": f"stale-second-render: a {bk[0]}/{bk[1]} loader that rendered the network before a rate and an ODE modifier were added writes "
+                                     f"{diff[:4]} differently from a fresh loader for the edited network", "signature": f"{prop}:same-loader-second-render::stale-second-render"})
+                        break
+            except Exception as e:
+                viol.append({"property": prop, "network": "same-loader-second-render", "what": f"raises: {type(e).__name__}: {e}", "signature": f"{prop}:same-loader-second-render::raises"})
         fresh_species_state()
         return {"cases": cases, "distinct": cases, "violations": viol, "samples": samples,
                 "bound": "hand-picked small networks (<= 6 reactions, <= 3 reactants, <= 5 products) + seeded random networks x 4 back ends",
